@@ -1044,7 +1044,19 @@ pub fn run_property(p: &Property, tier: Tier, seed: u64) -> i32 {
         }
         return 1;
     }
-    // generator health: never a violation
+    // generator health: never a violation.  A stream most of whose cases fall outside the
+    // check's own domain tests little, however many cases it counts
+    for r in &reports {
+        if r.excluded > r.evaluations && r.excluded > 100 {
+            println!(
+                "INCONCLUSIVE: generator health: stream {} has {} of {} generated cases outside the domain of its check",
+                r.name,
+                r.excluded,
+                r.excluded + r.evaluations
+            );
+            return 2;
+        }
+    }
     if evaluations > 0 && (nontrivial as f64) < p.min_nontrivial_share * evaluations as f64 {
         println!(
             "INCONCLUSIVE: generator health: only {} of {} cases non-trivial (< {:.3})",
